@@ -39,19 +39,31 @@ type valSpec struct {
 	val    string // the string value
 	notset bool
 	clean  bool // representable unambiguously as a sub-field value
+	list   bool // a well-formed field list when assigned to the whole header (blanks around separators included)
 }
 
 var values = []valSpec{
-	{`"tok"`, "tok", false, true},
-	{`"other"`, "other", false, true},
-	{`""`, "", false, true},
-	{`var.ns`, "", true, true},
-	{`"two words"`, "two words", false, true},
-	{`{"a, bb=zz "q" x"}`, `a, bb=zz "q" x`, false, false},
-	{`"line1%0Aline2"`, "line1\nline2", false, false},
-	{`"é=日本"`, "é=日本", false, false},
-	{`"p,q"`, "p,q", false, true},
-	{`"x=y;z"`, "x=y;z", false, true},
+	{`"tok"`, "tok", false, true, false},
+	{`"other"`, "other", false, true, false},
+	{`""`, "", false, true, false},
+	{`var.ns`, "", true, true, false},
+	{`"two words"`, "two words", false, true, false},
+	{`{"a, bb=zz "q" x"}`, `a, bb=zz "q" x`, false, false, false},
+	{`"line1%0Aline2"`, "line1\nline2", false, false, false},
+	{`"é=日本"`, "é=日本", false, false, false},
+	{`"p,q"`, "p,q", false, true, false},
+	{`"x=y;z"`, "x=y;z", false, true, false},
+	{`"aa=1, bb=2 , aab=3"`, "aa=1, bb=2 , aab=3", false, false, true},
+	{`"bb=x,Aa=y ,zz"`, "bb=x,Aa=y ,zz", false, false, true},
+	{`"zz , aab=q,  bb = r"`, "zz , aab=q,  bb = r", false, false, true},
+}
+
+// expected sub-field reads after a list value was assigned to the whole header (keys compare
+// case-insensitively in falco's field grammar, so "Aa" and "aa" name the same sub-field there)
+var listFields = map[string]map[string]string{
+	"aa=1, bb=2 , aab=3":  {"aa": "1", "bb": "2", "aab": "3"},
+	"bb=x,Aa=y ,zz":       {"bb": "x", "aa": "y"},
+	"zz , aab=q,  bb = r": {"aab": "q", "bb": "r"},
 }
 
 var nameGroups = [][]string{
@@ -60,7 +72,7 @@ var nameGroups = [][]string{
 	{"Foo-Baz", "foo-baz", "FOO-BAZ", "fOO-bAZ"}, // shares the prefix "Foo" with group 0 (wildcard, prefix bugs)
 }
 var cookieGroup = []string{"Cookie", "cookie", "COOKIE", "cOOkie"}
-var keys = []string{"aa", "aab", "bb"} // one key is a proper prefix of another
+var keys = []string{"aa", "aab", "bb", "Aa"} // one key is a proper prefix of another, one is a case variant of another
 
 var targets = []struct{ obj, scope string }{
 	{"req", "RECV"}, {"req", "HASH"}, {"req", "HIT"}, {"req", "MISS"}, {"req", "PASS"}, {"req", "FETCH"}, {"req", "ERROR"}, {"req", "DELIVER"}, {"req", "LOG"},
@@ -75,7 +87,7 @@ func main() {
 		ID:    "C17",
 		Level: "exploration",
 		Rule: "operation sequences over {set, set +=, add, unset, set name:key, unset name:key, unset prefix*} on header names in four case spellings (three names, two sharing a prefix, plus Cookie on req), " +
-			"three sub-field keys and eight values (tokens, empty, not-set local, spaces, separators/quotes, newline, multibyte) are rendered as a VCL subroutine and executed by the real interpreter in each (object, scope) " +
+			"four sub-field keys (one a prefix, one a case variant of another) and thirteen values (tokens, empty, not-set local, spaces, separators/quotes, newline, multibyte, three field lists with blanks around the separators) are rendered as a VCL subroutine and executed by the real interpreter in each (object, scope) " +
 			"where the object is writable; the debugger snapshot monitor reads every spelling of every name and every name:key before each statement, and the offline checker applies the store laws " +
 			"(read-after-set, newline truncation, not-set after unset, case-insensitivity of value and of the set/not-set flag, sub-field read-back, frame rule for other sub-fields, other headers and the other object). " +
 			"All sequences of length <=3 over a reduced alphabet are enumerated for req/RECV (and length <=2 for every other target); longer ones are PRNG. non-trivial = sequence with >=2 operations on the same header name; distinct by hash of the sequence",
@@ -95,9 +107,10 @@ func main() {
 func reducedOps() []op {
 	var out []op
 	for _, n := range []string{"Foo", "foo", "FOO", "X-Bar"} {
-		for _, v := range []int{0, 2, 3} {
+		for _, v := range []int{0, 2, 3, 10} {
 			out = append(out, op{K: "set", N: n, V: v})
 		}
+		out = append(out, op{K: "setf", N: n, Key: "Aa", V: 1})
 		for _, k := range []string{"aa", "bb"} {
 			for _, v := range []int{0, 1} {
 				out = append(out, op{K: "setf", N: n, Key: k, V: v})
@@ -379,8 +392,22 @@ func checkSeq(oc *fw.Outcome, s seq) {
 				grp = g
 			}
 		}
+		if o.K == "unsetw" {
+			// every header whose name starts with the prefix (names are case-insensitive) reads as not set
+			for _, g := range groups {
+				if !strings.HasPrefix(strings.ToLower(g[0]), strings.ToLower(o.N)) {
+					continue
+				}
+				for _, suffix := range append([]string{""}, keys...) {
+					if f := cur.Vals[hname(s.Obj, g[0], suffix)]; !f.NotSet {
+						oc.Violate(fmt.Sprintf("%s/unsetw/read-after-unset", s.Obj), fmt.Sprintf("after `%s`: %s reads %s, expected not set", o.render(s.Obj), hname(s.Obj, g[0], suffix), f), detail(map[string]any{"op_index": i - 1}))
+					}
+				}
+			}
+			continue
+		}
 		if grp == nil {
-			continue // wildcard prefix
+			continue
 		}
 		whole := cur.Vals[hname(s.Obj, canon(grp), "")]
 		pwhole := prev.Vals[hname(s.Obj, canon(grp), "")]
@@ -396,6 +423,15 @@ func checkSeq(oc *fw.Outcome, s seq) {
 				}
 			} else if whole.NotSet || whole.Str != trunc(v.val) {
 				viol("read-after-set", fmt.Sprintf("the header reads %s, expected %q", whole, trunc(v.val)))
+			}
+			if lf := listFields[v.val]; lf != nil && !isCookie {
+				for _, k := range keys {
+					want, has := lf[strings.ToLower(k)]
+					f := cur.Vals[hname(s.Obj, canon(grp), k)]
+					if has && (f.NotSet || f.Str != want) || !has && !f.NotSet {
+						viol("field-read-after-whole-set", fmt.Sprintf("sub-field %s reads %s after the whole header was set to %q", k, f, v.val))
+					}
+				}
 			}
 		case "unset":
 			if !whole.NotSet {
@@ -415,6 +451,14 @@ func checkSeq(oc *fw.Outcome, s seq) {
 				} else if pwhole.NotSet && whole.Str != trunc(v.val) && whole.Str != v.val && !isCookie {
 					viol("read-after-add", fmt.Sprintf("add on a not-set header reads %s, expected %q", whole, v.val))
 				}
+			}
+			// a header that was set keeps reading what it read (first line) or that followed by the
+			// addition; the added line never replaces the value that was written, the empty value included
+			if !pwhole.NotSet && !isCookie && !whole.NotSet && whole.Str != pwhole.Str && (pwhole.Str == "" || !strings.HasPrefix(whole.Str, pwhole.Str)) {
+				viol("add-replaced-value", fmt.Sprintf("the header read %s before and reads %s after", pwhole, whole))
+			}
+			if !pwhole.NotSet && whole.NotSet {
+				viol("add-unset", "add made a set header read as not set")
 			}
 		case "setc":
 			if whole.NotSet {
@@ -471,6 +515,9 @@ func siblings(oc *fw.Outcome, s seq, o op, clean bool, prev, cur sim.Snap, grp [
 // dirty reports whether an earlier operation stored an unclean value into the same header.
 func dirty(s seq, o op) bool {
 	for _, q := range s.Ops {
+		if strings.EqualFold(q.N, o.N) && q.K == "set" && values[q.V].list && !strings.EqualFold(q.N, "cookie") {
+			continue // a well-formed list assigned to the whole header keeps the field grammar unambiguous
+		}
 		if strings.EqualFold(q.N, o.N) && (q.K == "set" || q.K == "setc" || q.K == "add" || q.K == "setf") && !values[q.V].clean {
 			return true
 		}
